@@ -7,8 +7,14 @@ import Asn1Verif.Codegen.TagsLemmas
 
   Overview
   * the order itself           `ranks_in_x680_order`, `tag_order_is_x680`, `class_order`
-  * the SET sort (walker)      `set_order_perm`, `set_order_sorted`, `sort_key_of_component`,
-                               `root_before_extension`, `set_order_stable`
+  * the SET sort (walker)      `set_order` (root components: a permutation, pairwise in canonical
+                               order; extension additions: exactly as written — X.691 21.1),
+                               `set_order_perm`, `set_order_sorted`, `sort_key_of_component`,
+                               `root_before_extension`, `set_order_stable`,
+                               `set_order_ext_after` (`EXTENDED_AFTER_FIELD` untouched by the sort),
+                               `set_order_append_additions` (a new version that appends additions
+                               keeps the order of everything the old version knows: the premise of
+                               C05 for SET)
   * automatic tags             `automatic_tags_iff`, `automatic_set_order_textual`
   * SEQUENCE                   `sequence_order_textual`, `sequence_pipeline_order_textual`
   * TagResolver                `resolver_reference`, `resolver_cycle_has_no_tag`,
@@ -18,12 +24,14 @@ import Asn1Verif.Codegen.TagsLemmas
                                `resolver_default_fuel_suffices`, `resolver_unchanged_on_acyclic`
                                (on acyclic modules the repaired resolver = the one without stack)
   * whole pipeline             `pipeline_terminates`, `pipeline_never_panics`, `pipeline_order_perm`
-  * against X.680 end to end   `SetOrderCanonical` (full statement, FALSE for the current code:
-                               `set_order_canonical_fails_choice`, `…_fails_marker`),
-                               `set_order_canonical_partial`
-  * TAG constants              `TagConstPerX680` (full, FALSE: `tag_const_fails_setof`,
-                               `tag_const_fails_default`), `tag_const_partial`,
-                               `tag_const_explicit`, `set_own_tag_is_sequence_tag`
+  * against X.680/X.691        `SetOrderCanonical` (full statement, FALSE for the current code:
+                               `set_order_canonical_fails_choice`), `set_order_canonical_partial`
+                               (any marker position, also in front of the first component);
+                               `ExtensionSplitPerText` (full, FALSE: `extension_split_fails_marker`),
+                               `extension_split_partial`
+  * TAG constants              `tag_const` (= `TagConstPerX680`, full since the repair of the SET OF
+                               and DEFAULT arms), `tag_const_explicit`, `own_tag` (SET: UNIVERSAL 17,
+                               full since the repair)
 -/
 namespace Asn1Verif.Props.C16
 open Asn1Verif Asn1Verif.Codegen.Tags
@@ -64,12 +72,96 @@ theorem default_tags_are_x680 (k : Builtin) : defaultTag k = Tag.universal (x680
 
 /-! ### the SET sort -/
 
-/-- "`a` may stand in front of `b`" in X.680 terms: root before extension addition; within the
-    same part by class rank, then by number -/
+/-- "`a` may stand in front of `b`" among root components (X.680 8.6): class rank, then number -/
+def TagBefore (a b : RField) : Prop :=
+  ∃ ta tb, a.tag = some ta ∧ b.tag = some tb ∧
+    (ta.cls < tb.cls ∨ (ta.cls = tb.cls ∧ ta.num ≤ tb.num))
+
+/-- "`a` may stand in front of `b`" (X.691 21.1): a root component before an extension addition;
+    two root components in canonical tag order; two extension additions in either order as far as
+    tags go — their order is the textual one (`set_order`, third clause) -/
 def CanonBefore (a b : Bool × RField) : Prop :=
-  (a.1 = false ∧ b.1 = true) ∨
-  (a.1 = b.1 ∧ ∃ ta tb, a.2.tag = some ta ∧ b.2.tag = some tb ∧
-    (ta.cls < tb.cls ∨ (ta.cls = tb.cls ∧ ta.num ≤ tb.num)))
+  (a.1 = false ∧ b.1 = true) ∨ (a.1 = true ∧ b.1 = true) ∨
+  (a.1 = false ∧ b.1 = false ∧ TagBefore a.2 b.2)
+
+/-- every component the sort sees carries a tag, once `sort_fields_canonically` returns -/
+theorem sorted_fields_tagged (fields : List RField) (e : Option Nat) (out : List RField)
+    (h : sortFieldsCanonically fields e = .ok out) :
+    ∀ p ∈ prepare fields e, ∃ t, p.2.tag = some t := by
+  unfold sortFieldsCanonically at h
+  split at h
+  · cases h
+  · rename_i hany
+    intro p hp
+    have hany' : (prepare fields e).any (fun p => p.2.tag.isNone) = false := by
+      cases hb : (prepare fields e).any (fun p => p.2.tag.isNone) with
+      | false => rfl
+      | true => exact absurd hb hany
+    have := List.any_eq_false.1 hany' p hp
+    cases ht : p.2.tag with
+    | none => simp [ht] at this
+    | some t => exact ⟨t, rfl⟩
+
+/-- **the SET order** (X.691 21.1, X.680 8.6).  With `n` the number of root components
+    (`extension_after + 1`; all of them without a marker) and every component carrying its own
+    tag where given, else the tag of its type (`RField.withTypeTag`):
+    * the first `n` emitted components are a permutation of the root components,
+    * pairwise in canonical tag order (class rank, then number),
+    * and the extension additions follow exactly as they are written: the emitted list behind
+      position `n` IS the textual list behind position `n`. -/
+theorem set_order (fields : List RField) (e : Option Nat) (out : List RField)
+    (h : sortFieldsCanonically fields e = .ok out) :
+    (out.take (rootCount e fields.length)).Perm
+      ((fields.take (rootCount e fields.length)).map RField.withTypeTag) ∧
+    (out.take (rootCount e fields.length)).Pairwise TagBefore ∧
+    out.drop (rootCount e fields.length) =
+      (fields.drop (rootCount e fields.length)).map RField.withTypeTag := by
+  obtain ⟨ht, hd⟩ := sortFieldsCanonically_split fields e out h
+  have htag := sorted_fields_tagged fields e out h
+  have hperm := List.mergeSort_perm ((prepare fields e).take (rootCount e fields.length)) keyLe
+  refine ⟨?_, ?_, hd⟩
+  · rw [ht]
+    have := hperm.map (·.2)
+    rwa [List.map_take, map_snd_prepare, ← List.map_take] at this
+  · rw [ht, List.pairwise_map]
+    refine (List.pairwise_mergeSort keyLe_trans keyLe_total _).imp_of_mem ?_
+    intro a b ha hb hab
+    have ha' := hperm.mem_iff.1 ha
+    have hb' := hperm.mem_iff.1 hb
+    have fa := flag_take_prepare fields e a ha'
+    have fb := flag_take_prepare fields e b hb'
+    obtain ⟨ta, hta⟩ := htag a (List.mem_of_mem_take ha')
+    obtain ⟨tb, htb⟩ := htag b (List.mem_of_mem_take hb')
+    rw [keyLe_iff] at hab
+    rcases hab with ⟨_, h2⟩ | ⟨h1, _⟩ | ⟨_, _, h3⟩
+    · rw [fb] at h2; cases h2
+    · rw [fa] at h1; cases h1
+    · rw [hta, htb] at h3
+      exact ⟨ta, tb, hta, htb, (Tag.le_iff ta tb).1 h3⟩
+
+/-- … in terms of names: behind the root components the emitted names are the textual names -/
+theorem set_order_additions_textual (fields : List RField) (e : Option Nat) (out : List RField)
+    (h : sortFieldsCanonically fields e = .ok out) :
+    (out.drop (rootCount e fields.length)).map (·.name) =
+      (fields.drop (rootCount e fields.length)).map (·.name) := by
+  rw [(set_order fields e out h).2.2, List.map_map]
+  rfl
+
+/-- the sort does not touch `extension_after`: the descriptor's `EXTENDED_AFTER_FIELD` is the index
+    the walker was handed, and the root components are the ones in front of it before and after -/
+theorem set_order_ext_after (o : EncodingOrdering) (fields : List RField) (e : Option Nat)
+    (em : Emitted) (h : writeConstraints o fields e = .ok em) : em.extAfter = e :=
+  writeConstraints_extAfter o fields e em h
+
+/-- **a new version that appends extension additions** (marker behind component `k` of the old
+    list) emits the old order followed by the new additions as written: nothing the old version
+    knows changes its place (the premise of C05 for SET; false before the repair, when the
+    additions were sorted among themselves) -/
+theorem set_order_append_additions (fields adds : List RField) (k : Nat) (hk : k < fields.length)
+    (out : List RField) (h : sortFieldsCanonically fields (some k) = .ok out)
+    (ha : ∀ f ∈ adds, (f.tag.orElse fun _ => f.typeTag).isSome = true) :
+    sortFieldsCanonically (fields ++ adds) (some k) = .ok (out ++ adds.map RField.withTypeTag) :=
+  sortFieldsCanonically_append fields adds k hk out h ha
 
 /-- the emitted SET order is a permutation of the components: nothing lost, nothing doubled.
     (`prepare` only fills in the type's tag where the component has none.) -/
@@ -88,38 +180,30 @@ theorem set_order_perm (fields : List RField) (e : Option Nat) (out : List RFiel
     simpa [List.map_map, Function.comp_def, map_name_prepare] using
       (sortKeyed_perm fields e).map (·.2.name) |>.trans (by rw [map_name_prepare])
 
-/-- the emitted SET order is non-decreasing w.r.t. the key (root-before-extension, class rank,
-    number): any component emitted earlier may stand in front of any component emitted later -/
+/-- the whole emitted list is in order w.r.t. `CanonBefore`: any component emitted earlier may
+    stand in front of any component emitted later -/
 theorem set_order_sorted (fields : List RField) (e : Option Nat) (out : List RField)
     (h : sortFieldsCanonically fields e = .ok out) :
     ∃ keyed : List (Bool × RField), out = keyed.map (·.2) ∧ keyed.Perm (prepare fields e) ∧
       keyed.Pairwise CanonBefore := by
+  have htag0 := sorted_fields_tagged fields e out h
   unfold sortFieldsCanonically at h
   split at h
   · cases h
-  · rename_i hany
-    simp only [Outcome.ok.injEq] at h
+  · simp only [Outcome.ok.injEq] at h
     refine ⟨sortKeyed fields e, h.symm, sortKeyed_perm fields e, ?_⟩
-    have htag : ∀ p ∈ sortKeyed fields e, ∃ t, p.2.tag = some t := by
-      intro p hp
-      have hp' : p ∈ prepare fields e := (sortKeyed_perm fields e).mem_iff.1 hp
-      have hany' : (prepare fields e).any (fun p => p.2.tag.isNone) = false := by
-        cases hb : (prepare fields e).any (fun p => p.2.tag.isNone) with
-        | false => rfl
-        | true => exact absurd hb hany
-      have := List.any_eq_false.1 hany' p hp'
-      cases ht : p.2.tag with
-      | none => simp [ht] at this
-      | some t => exact ⟨t, rfl⟩
+    have htag : ∀ p ∈ sortKeyed fields e, ∃ t, p.2.tag = some t := fun p hp =>
+      htag0 p ((sortKeyed_perm fields e).mem_iff.1 hp)
     refine (sortKeyed_pairwise fields e).imp_of_mem ?_
     intro a b ha hb hab
     rw [keyLe_iff] at hab
-    rcases hab with hab | ⟨h1, h2⟩
+    rcases hab with hab | hab | ⟨h1, h2, h3⟩
     · exact Or.inl hab
+    · exact Or.inr (Or.inl hab)
     · obtain ⟨ta, hta⟩ := htag a ha
       obtain ⟨tb, htb⟩ := htag b hb
-      rw [hta, htb] at h2
-      exact Or.inr ⟨h1, ta, tb, hta, htb, (Tag.le_iff ta tb).1 h2⟩
+      rw [hta, htb] at h3
+      exact Or.inr (Or.inr ⟨h1, h2, ta, tb, hta, htb, (Tag.le_iff ta tb).1 h3⟩)
 
 /-- what the key of component `i` is: the extended flag of its textual index, its explicit tag
     where given, else the tag of its type -/
@@ -137,9 +221,10 @@ theorem root_before_extension (fields : List RField) (e : Option Nat) :
   refine (sortKeyed_pairwise fields e).imp ?_
   intro a b hab ha
   rw [keyLe_iff] at hab
-  rcases hab with ⟨h1, _⟩ | ⟨h1, _⟩
+  rcases hab with ⟨h1, _⟩ | ⟨_, h2⟩ | ⟨h1, _, _⟩
   · rw [ha] at h1; cases h1
-  · rw [← h1]; exact ha
+  · exact h2
+  · rw [ha] at h1; cases h1
 
 /-- stability: two components in textual order whose keys do not force a swap (in particular:
     equal keys) keep their textual order -/
@@ -285,24 +370,42 @@ theorem pipeline_order_perm (env : Env) (o : EncodingOrdering) (c : Components) 
     (h : emit env o c = some (.ok em)) : em.order.Perm (c.fields.map (·.name)) :=
   emit_order_perm env o c em h
 
-/-! ### end to end against X.680 -/
+/-! ### end to end against X.680 / X.691 -/
 
 /-- **full statement** (one marker at most; a second root list is outside the statement):
-    whenever the generator emits a SET, the order is the canonical one.  FALSE for the current
-    code, see the two counterexamples. -/
+    whenever the generator emits a SET, the order is the one X.691 21.1 prescribes (`specOrder`:
+    root components in the canonical order of X.680 8.6 under X.680's tags, extension additions
+    as written).  FALSE for the current code, see the counterexample. -/
 def SetOrderCanonical : Prop :=
   ∀ (env : Env) (c : Components) (em : Emitted), c.markers.length ≤ 1 →
     emit env .sort c = some (.ok em) → em.order = specOrder env c
 
-/-- **partial**: with the marker not in front of the first component and no automatically tagged
-    CHOICE deciding a position (`TagsAgree`, decidable), the emitted SET order is the canonical
-    order of X.680 8.6 -/
+/-- **partial** (one open finding, F-C16-1): when no automatically tagged CHOICE decides a
+    position (`TagsAgree`, decidable), the emitted SET order is the prescribed one — for every
+    position of the marker, in front of the first component included (there the whole list is
+    additions and stays as written; what is wrong in that case is the split the descriptor
+    states, `ExtensionSplitPerText` below) -/
 theorem set_order_canonical_partial (env : Env) (c : Components) (em : Emitted)
-    (hm : c.markers.length ≤ 1) (h0 : 0 ∉ c.markers) (ht : TagsAgree env c)
+    (hm : c.markers.length ≤ 1) (ht : TagsAgree env c)
     (h : emit env .sort c = some (.ok em)) : em.order = specOrder env c :=
-  emit_sort_eq_specOrder env c em hm h0 ht h
+  emit_sort_eq_specOrder env c em hm ht h
 
-/-! #### counterexamples: the full statement is false for the current code -/
+/-- **full statement**: the components the descriptor treats as extension additions
+    (`EXTENDED_AFTER_FIELD`: every index above it) are exactly the ones declared behind the
+    marker.  FALSE for the current code (marker in front of the first component). -/
+def ExtensionSplitPerText : Prop :=
+  ∀ (env : Env) (o : EncodingOrdering) (c : Components) (em : Emitted), c.markers.length ≤ 1 →
+    emit env o c = some (.ok em) →
+    ∀ i, i < c.fields.length → extendedFlag em.extAfter i = c.isExtension i
+
+/-- **partial** (open finding F-C16-2): with the marker not in front of the first component -/
+theorem extension_split_partial (env : Env) (o : EncodingOrdering) (c : Components) (em : Emitted)
+    (hm : c.markers.length ≤ 1) (h0 : 0 ∉ c.markers) (h : emit env o c = some (.ok em)) (i : Nat) :
+    extendedFlag em.extAfter i = c.isExtension i := by
+  rw [emit_extAfter env o c em h]
+  exact extendedFlag_eq_isExtension c hm h0 i
+
+/-! #### counterexamples: the full statements are false for the current code -/
 
 /-- `Cb ::= CHOICE { v0 BOOLEAN, v1 INTEGER }` — no alternative tagged: automatic tags `[0] [1]` -/
 def envCb : Env :=
@@ -326,14 +429,16 @@ macro "eval_tags" : tactic => `(tactic|
   simp [emit, allSome, toRField, rustTypeTag, resolveTag, resolveTypeTag,
     collectTags, rootAlts, minTag, Env.lookup, defaultFuel, envDepth, Ty.depth, altsDepth,
     rkindOf, defaultTag, extensionAfter, writeConstraints, assignImplicitTags, tagConsts, tagConst,
-    constDefaultTag, emitOrder, sortFieldsCanonically, prepare, sortKeyed, List.mergeSort,
-    List.MergeSort.Internal.splitInTwo, keyLe, optTagLe, Tag.le, extendedFlag, Tag.application,
+    RField.innerTag, ownDefaultTag, emitOrder, sortFieldsCanonically, prepare, sortKeyed,
+    List.mergeSort, List.MergeSort.Internal.splitInTwo, List.merge, keyLe, optTagLe, Tag.le,
+    extendedFlag, Tag.application,
     Tag.universal, Tag.contextSpecific, Tag.priv, Tag.ofPair, List.zipIdx,
     Consts.TAG_RANK_Application, Consts.TAG_RANK_Universal, Consts.TAG_RANK_ContextSpecific,
     Consts.TAG_RANK_Private, Consts.TAG_DEFAULT_BOOLEAN, Consts.TAG_DEFAULT_INTEGER,
-    Consts.TAG_DEFAULT_SEQUENCE, Consts.TAG_DEFAULT_SEQUENCE_OF, Consts.TAG_DEFAULT_SET_OF,
-    specOrder, specKeyed, specTag, specAuto, specTypeTag, specLe, x680Universal,
-    Components.isExtension, Option.join, Outcome.bind])
+    Consts.TAG_DEFAULT_SEQUENCE, Consts.TAG_DEFAULT_SEQUENCE_OF, Consts.TAG_DEFAULT_SET,
+    Consts.TAG_DEFAULT_SET_OF, Consts.TAG_DEFAULT_NULL,
+    specOrder, specKeyed, specTag, specAuto, specTypeTag, specTagLe, x680Universal,
+    Components.isExtension, Option.join, Outcome.bind, RField.withTypeTag])
 
 /-- the generator orders `c` by `UNIVERSAL 1` (BOOLEAN, as if the alternatives were not
     tagged automatically) and emits `c, a` … -/
@@ -345,16 +450,6 @@ theorem emitted_with_auto_choice :
 /-- … X.680 gives `c` the tag `[0]`: canonical order `a, c` -/
 theorem spec_with_auto_choice : specOrder envCb setWithAutoChoice = ["a", "c"] := by
   unfold envCb setWithAutoChoice; eval_tags
-
-/-- the first addition is treated as a root component: `a, b` is emitted … -/
-theorem emitted_marker_first :
-    (emit [] .sort setMarkerFirst).map (fun o => o.bind fun em => .ok (em.order, em.extAfter))
-      = some (.ok (["a", "b"], some 0)) := by
-  unfold setMarkerFirst; eval_tags
-
-/-- … although both are additions and `b` (UNIVERSAL 1) sorts before `a` (APPLICATION 1) -/
-theorem spec_marker_first : specOrder [] setMarkerFirst = ["b", "a"] := by
-  unfold setMarkerFirst; eval_tags
 
 theorem set_order_canonical_fails_choice : ¬ SetOrderCanonical := by
   intro h
@@ -370,7 +465,19 @@ theorem set_order_canonical_fails_choice : ¬ SetOrderCanonical := by
     | err k => simp [hem, Outcome.bind] at h1
     | panic => simp [hem, Outcome.bind] at h1
 
-theorem set_order_canonical_fails_marker : ¬ SetOrderCanonical := by
+/-- marker in front of the first component: the emitted order `a, b` is the prescribed one (both
+    are additions, they stay as written) — but the descriptor announces `a` as a root component:
+    `EXTENDED_AFTER_FIELD = Some(0)` … -/
+theorem emitted_marker_first :
+    (emit [] .sort setMarkerFirst).map (fun o => o.bind fun em => .ok (em.order, em.extAfter))
+      = some (.ok (["a", "b"], some 0)) := by
+  unfold setMarkerFirst; eval_tags
+
+theorem spec_marker_first : specOrder [] setMarkerFirst = ["a", "b"] := by
+  unfold setMarkerFirst; eval_tags
+
+/-- … although `a` is declared behind the marker -/
+theorem extension_split_fails_marker : ¬ ExtensionSplitPerText := by
   intro h
   have h1 := emitted_marker_first
   cases hem : emit [] .sort setMarkerFirst with
@@ -378,9 +485,13 @@ theorem set_order_canonical_fails_marker : ¬ SetOrderCanonical := by
   | some o =>
     cases o with
     | ok em =>
-      have := h [] setMarkerFirst em (by decide) hem
-      rw [spec_marker_first] at this
-      simp [hem, this, Outcome.bind] at h1
+      have h2 := h [] .sort setMarkerFirst em (by decide) hem 0 (by decide)
+      have h3 : em.extAfter = some 0 := by
+        simp only [hem, Option.map_some, Outcome.bind, Option.some.injEq, Outcome.ok.injEq,
+          Prod.mk.injEq] at h1
+        exact h1.2
+      rw [h3] at h2
+      revert h2; decide
     | err k => simp [hem, Outcome.bind] at h1
     | panic => simp [hem, Outcome.bind] at h1
 
@@ -393,50 +504,39 @@ theorem tag_const_explicit (rf : RField) (t : Tag) (h : rf.tag = some t) :
   cases rf.presence <;> cases rf.kind <;> simp [h]
 
 /-- **full statement**: an untagged component of a plain type gets the universal tag of its
-    type.  FALSE for the current code (SET OF, DEFAULT). -/
+    type — mandatory, OPTIONAL or DEFAULT, SET OF included. -/
 def TagConstPerX680 : Prop :=
   ∀ (rf : RField) (k : Builtin), rf.kind = .builtin k → rf.tag = none →
     tagConst rf = .ok (Tag.universal (x680Universal k))
 
-theorem tag_const_partial (rf : RField) (k : Builtin) (hk : rf.kind = .builtin k)
-    (ht : rf.tag = none) (hp : rf.presence ≠ .default) (hs : k ≠ .setOf) :
-    tagConst rf = .ok (Tag.universal (x680Universal k)) := by
+/-- the full statement holds (it was `tag_const_partial`, without DEFAULT components and SET OF,
+    before `write_field_constraint` was repaired: both used `Tag::DEFAULT_SEQUENCE_OF`) -/
+theorem tag_const : TagConstPerX680 := by
+  intro rf k hk ht
   unfold tagConst
-  cases hpr : rf.presence with
-  | default => exact absurd hpr hp
-  | required => simp only [hk, ht]; cases k <;> first | exact absurd rfl hs | rfl
-  | optional => simp only [hk, ht]; cases k <;> first | exact absurd rfl hs | rfl
+  cases rf.presence <;> simp only [hk, ht, RField.innerTag] <;> cases k <;> rfl
 
-/-- `b SET OF …` untagged: `TAG` is `UNIVERSAL 16` (the SEQUENCE OF tag) instead of 17 -/
-theorem tag_const_fails_setof : ¬ TagConstPerX680 := by
-  intro h
-  have := h { name := "b", tag := none, typeTag := some (Tag.universal 17),
-              kind := .builtin .setOf, presence := .required } .setOf rfl rfl
-  revert this; decide
+/-- regression, the witnesses of the two former findings: `b SET OF …` untagged has `TAG`
+    `UNIVERSAL 17` (was 16), `b BOOLEAN DEFAULT TRUE` untagged has `UNIVERSAL 1` (was 16) -/
+example : tagConst { name := "b", tag := none, typeTag := some (Tag.universal 17),
+                     kind := .builtin .setOf, presence := .required } = .ok (Tag.universal 17) := by
+  decide
+example : tagConst { name := "b", tag := none, typeTag := some (Tag.universal 1),
+                     kind := .builtin .boolean, presence := .default } = .ok (Tag.universal 1) := by
+  decide
+-- a DEFAULT component of a referenced type takes the tag stage 1 printed for the reference
+example : tagConst { name := "b", tag := none, typeTag := some (Tag.application 7),
+                     kind := .complex, presence := .default } = .ok (Tag.application 7) := by
+  decide
 
-/-- `b BOOLEAN DEFAULT TRUE` untagged: `TAG` is `UNIVERSAL 16` instead of 1 -/
-theorem tag_const_fails_default : ¬ TagConstPerX680 := by
-  intro h
-  have := h { name := "b", tag := none, typeTag := some (Tag.universal 1),
-              kind := .builtin .boolean, presence := .default } .boolean rfl rfl
-  revert this; decide
-
-/-- the `TAG` of an untagged SET type itself is the SEQUENCE tag (`UNIVERSAL 16`), not
-    `defaultTag .set` (`UNIVERSAL 17`) -/
-theorem set_own_tag_is_sequence_tag (fields : List RField) (e : Option Nat) (em : Emitted)
-    (h : writeConstraints .sort fields e = .ok em) :
-    em.ownTag = defaultTag .sequence ∧ em.ownTag ≠ defaultTag .set := by
-  have : em.ownTag = defaultTag .sequence := by
-    unfold writeConstraints at h
-    cases h1 : tagConsts (assignImplicitTags fields) with
-    | ok r =>
-      cases h2 : emitOrder .sort (assignImplicitTags fields) e with
-      | ok l => simp [h1, h2] at h; rw [← h]; rfl
-      | err k => simp [h1, h2] at h
-      | panic => simp [h1, h2] at h
-    | err k => simp [h1] at h
-    | panic => simp [h1] at h
-  exact ⟨this, by rw [this]; decide⟩
+/-- **the type's own `TAG`** (the type carries no tag of its own): `UNIVERSAL 16` for a SEQUENCE,
+    `UNIVERSAL 17` for a SET (was 16 for both before `write_sequence_or_set_constraint` was
+    repaired) -/
+theorem own_tag (o : EncodingOrdering) (fields : List RField) (e : Option Nat) (em : Emitted)
+    (h : writeConstraints o fields e = .ok em) :
+    em.ownTag = Tag.universal (x680Universal (match o with | .keep => .sequence | .sort => .set)) := by
+  rw [writeConstraints_ownTag o fields e em h]
+  cases o <;> rfl
 
 /-! ### non-vacuity -/
 
@@ -449,7 +549,8 @@ def sampleSet : Components :=
                { name := "d", tag := none, ty := .ref "X" }],
     markers := [2] }
 
--- the hypotheses of `set_order_canonical_partial` hold for it and it is reordered: b, a | c, d
+-- the hypotheses of `set_order_canonical_partial` / `extension_split_partial` hold for it and it
+-- is reordered: b, a | c, d
 example : sampleSet.markers.length ≤ 1 ∧ 0 ∉ sampleSet.markers ∧ TagsAgree envX sampleSet := by
   decide
 example : (emit envX .sort sampleSet).map (fun o => o.bind fun em => .ok (em.order, em.extAfter))
@@ -457,6 +558,44 @@ example : (emit envX .sort sampleSet).map (fun o => o.bind fun em => .ok (em.ord
   unfold envX sampleSet; eval_tags
 example : specOrder envX sampleSet = ["b", "a", "c", "d"] := by
   unfold envX sampleSet; eval_tags
+/-- the same with the additions in descending tag order:
+    `SET { a [APPLICATION 1] INTEGER, b BOOLEAN, ..., c [5] NULL, d [2] INTEGER }` -/
+def sampleSetDesc : Components :=
+  { fields := [{ name := "a", tag := some (Tag.application 1), ty := .builtin .integer },
+               { name := "b", tag := none, ty := .builtin .boolean },
+               { name := "c", tag := some (Tag.contextSpecific 5), ty := .builtin .null },
+               { name := "d", tag := some (Tag.contextSpecific 2), ty := .builtin .integer }],
+    markers := [2] }
+-- the root components are sorted (b, a), the additions stay as written (c, d — before the repair
+-- of `sort_fields_canonically`: d, c)
+example : (emit [] .sort sampleSetDesc).map (fun o => o.bind fun em => .ok (em.order, em.extAfter))
+    = some (.ok (["b", "a", "c", "d"], some 1)) := by
+  unfold sampleSetDesc; eval_tags
+example : specOrder [] sampleSetDesc = ["b", "a", "c", "d"] := by
+  unfold sampleSetDesc; eval_tags
+/-- regression, the witness of the former finding F-set-additions-sorted (C05, `zoo_ver::SetV1/V2`):
+    `SetV1 ::= SET { a [0] INTEGER, ..., b [5] BOOLEAN OPTIONAL }`,
+    `SetV2 ::= SET { a [0] INTEGER, ..., b [5] BOOLEAN OPTIONAL, c [2] INTEGER OPTIONAL }` -/
+def rfA : RField :=
+  { name := "a", tag := some (Tag.contextSpecific 0), typeTag := some (Tag.universal 2),
+    kind := .builtin .integer, presence := .required }
+def rfB : RField :=
+  { name := "b", tag := some (Tag.contextSpecific 5), typeTag := some (Tag.universal 1),
+    kind := .builtin .boolean, presence := .optional }
+def rfC : RField :=
+  { name := "c", tag := some (Tag.contextSpecific 2), typeTag := some (Tag.universal 2),
+    kind := .builtin .integer, presence := .optional }
+-- V2 is emitted a, b, c = V1's order followed by the new addition (was a, c, b)
+example : sortFieldsCanonically [rfA, rfB] (some 0) = .ok [rfA, rfB] ∧
+    sortFieldsCanonically ([rfA, rfB] ++ [rfC]) (some 0) = .ok ([rfA, rfB] ++ [rfC]) := by
+  unfold rfA rfB rfC; eval_tags
+-- `set_order` / `set_order_append_additions`: the hypotheses on this instance
+example : rootCount (some 0) [rfA, rfB].length = 1 ∧ 0 < [rfA, rfB].length ∧
+    ∀ f ∈ [rfC], (f.tag.orElse fun _ => f.typeTag).isSome = true := by decide
+-- the marker in front of the first component is inside `set_order_canonical_partial` now (it was
+-- excluded while the additions were sorted), outside `extension_split_partial`
+example : setMarkerFirst.markers.length ≤ 1 ∧ TagsAgree [] setMarkerFirst ∧
+    0 ∈ setMarkerFirst.markers := by decide
 -- `TagsAgree` is false exactly on the counterexample
 example : ¬ TagsAgree envCb setWithAutoChoice := by decide
 -- an all-untagged list satisfies `NoneTagged`, a mixed one does not
@@ -530,13 +669,20 @@ example : (sortKeyed [rfX, rfY] none).map (·.2.name) = ["x", "y"] := by
 example : (sortKeyed [rfY, rfX] none).map (·.2.name) = ["y", "x"] := by
   unfold rfX rfY; eval_tags
 
--- `set_order_perm` / `set_order_sorted` / `set_own_tag_is_sequence_tag`: an instance of the hypothesis
+-- `set_order_perm` / `set_order_sorted` / `own_tag` / `set_order_ext_after`: an instance of the hypothesis
 example : sortFieldsCanonically [rfTagged, rfY] none
     = .ok [{ rfY with tag := some (Tag.universal 1) }, rfTagged] := by
   unfold rfTagged rfUntagged rfY; eval_tags
 example : (writeConstraints .sort [rfTagged, rfY] none).bind (fun em => .ok (em.order, em.ownTag))
-    = .ok (["y", "a"], Tag.universal 16) := by
+    = .ok (["y", "a"], Tag.universal 17) := by
   unfold rfTagged rfUntagged rfY; eval_tags
+-- regression, the witness of the former finding tags.set-own-tag: `SET { a BOOLEAN }` has `TAG`
+-- `UNIVERSAL 17` (was 16); the same list as a SEQUENCE: 16
+example : (emit [] .sort { fields := [{ name := "a", tag := none, ty := .builtin .boolean }] }).map
+      (fun o => o.bind fun em => .ok em.ownTag) = some (.ok (Tag.universal 17)) ∧
+    (emit [] .keep { fields := [{ name := "a", tag := none, ty := .builtin .boolean }] }).map
+      (fun o => o.bind fun em => .ok em.ownTag) = some (.ok (Tag.universal 16)) := by
+  eval_tags
 -- `set_order_stable`: a pair in textual order with equal keys
 example : [(false, rfX), (false, { rfY with tag := some (Tag.universal 1) })].Sublist
       (prepare [rfX, rfY] none) ∧
@@ -548,9 +694,8 @@ example : (emit envX .keep sampleSet).map (fun o => o.bind fun em => .ok em.orde
 -- `pipeline_never_panics`: the hypothesis, and the excluded shape `SET { ... }` does panic
 example : sampleSet.fields ≠ [] ∨ sampleSet.markers = [] := by decide
 example : emit [] .sort { fields := [], markers := [0] } = some .panic := by eval_tags
--- `tag_const_partial`, `tag_const_explicit`
-example : rfUntagged.kind = .builtin .integer ∧ rfUntagged.tag = none ∧
-    rfUntagged.presence ≠ .default ∧ Builtin.integer ≠ .setOf := by decide
+-- `tag_const`, `tag_const_explicit`
+example : rfUntagged.kind = .builtin .integer ∧ rfUntagged.tag = none := by decide
 example : tagConst rfUntagged = .ok (Tag.universal 2) ∧ tagConst rfTagged = .ok (Tag.priv 1) := by
   decide
 -- an unresolvable reference ends in the compile error of stage 2, not in a panic
